@@ -73,7 +73,10 @@ pub fn print_quads(qs: &[QT]) -> String {
 }
 
 pub fn print_update(u: &Upd) -> String {
-    let st = Style::default();
+    // the WHERE text alternates between fully parenthesised and precedence-only FILTERs
+    // (a pure function of the update, so that a case prints the same way on replay)
+    let min_parens = format!("{:?}", u).len() % 2 == 1;
+    let st = Style { min_parens, ..Style::default() };
     match u {
         Upd::InsertData(q) => format!("INSERT DATA {}", print_quads(q)),
         Upd::DeleteData(q) => format!("DELETE DATA {}", print_quads(q)),
